@@ -39,6 +39,9 @@ def sFirst (s : Nat) : Nat := s % 2 ^ 27 + BASE
 def sLen (s : Nat) : Nat := s / 2 ^ 27
 def yLeap (r : Nat) : Nat := r / 2 ^ 448 % 16
 def yCount (r : Nat) : Nat := r / 2 ^ 452 % 16
+/-- k-th calendar-making zhongqi day (k = 0..12) of the solstice year ending in December of the record's year; 0 = not dumped -/
+def yQiRaw (r k : Nat) : Nat := r / 2 ^ (512 + 27 * k) % 2 ^ 27
+def yQi (r k : Nat) : Nat := yQiRaw r k + BASE
 def tQi (r : Nat) : Nat := r % 2 ^ 24 + BASE
 def tDayRaw (r : Nat) : Nat := r / 2 ^ 24 % 2 ^ 24
 def tDay (r : Nat) : Nat := if tDayRaw r = 0 then 0 else tDayRaw r + BASE
